@@ -15,13 +15,16 @@ import (
 func compileAll(r *rep.Run, h *drive.Harness, p *Prog, opts []drive.Opt) []compiled {
 	cs := make([]compiled, 0, len(opts))
 	for _, o := range opts {
+		if p.Infix {
+			o.Infix = true
+		}
 		cfg := h.NewConfig(p.Vars, o)
 		e, err := h.Compile(cfg, drive.Source(p.Src, o), eventCap(p.Size))
 		if err != nil {
 			r.Violate("compile", p.Src+o.String(), sprintf("well-formed program does not compile under %s: %v", o, err), caseDesc(p.Src, o, nil, nil, nil, nil))
 			continue
 		}
-		cs = append(cs, compiled{o: o, p: p, e: e, f: drive.NewFetcher(h, p.Vars, o)})
+		cs = append(cs, compiled{o: o, p: p, e: e, f: drive.NewFetcher(h, p.Vars, o), cfg: cfg})
 	}
 	return cs
 }
@@ -186,6 +189,25 @@ func extraPrograms() []*Prog {
 		add(term.Op(opn, B, term.Op(opn, B, term.Op(dec, B), b()), pb()))
 		add(term.Op(opn, B, term.Op(dec, B), term.Op(neu, B)))
 	}
+	// variables whose NAMES resemble literals, keywords, operators or internal markers
+	for _, nm := range []string{"True", "FALSE", "TRUE", "False", "T", "F", "fi", "DNE", "eventNode", "nil", "Inf", "NaN", "x1e3", "e5", "_", "__x", "a.b", "a.b.c", "étoile", "名前", "v01", "O0", "l1", "if_", "and_", "not1", "true_", "xtrue"} {
+		kb := func() *term.Term { return term.KeptVar(nm, B) }
+		ki := func() *term.Term { return term.KeptVar(nm, I) }
+		add(term.Op("not", B, kb()))
+		add(term.Op("and", B, kb(), b()))
+		add(term.Op("or", B, kb(), term.Op("=", B, term.Op("/", I, n(), term.Const(0)), term.Const(1))))
+		add(term.If(kb(), term.Const(1), term.Const(2)))
+		add(term.Op("+", I, ki(), term.Const(2), n()))
+		add(term.Op("=", B, ki(), ki()))
+		add(term.Op("not", B, term.Op("and", B, kb(), b(), b())))
+		add(term.Op("+", I, ki(), term.Const(1), term.Const(2), term.Const(3), term.Const(4), term.Const(5), term.Const(6), term.Const(7), n()))
+	}
+	// string literals spelled like markers / keywords
+	for _, lit := range []string{"fi", "if", "eventNode", "DNE", "true", "nil"} {
+		sv := func() *term.Term { return term.Var("s", term.TS) }
+		add(term.Op("not", B, term.Op("and", B, term.Op("=", B, sv(), term.Const(lit), sv()), b())))
+		add(term.If(term.Op("=", B, sv(), term.Const(lit)), term.Op("+", I, n(), term.Const(1), term.Const(2), term.Const(3), term.Const(4), term.Const(5), term.Const(6), term.Const(7), term.Const(8)), term.Const(0)))
+	}
 	for _, ne := range []string{"!=", "ne"} {
 		add(term.Op(ne, B, n(), F.Clone()))
 		add(term.Op(ne, B, F.Clone(), n()))
@@ -218,4 +240,23 @@ func harnesses(n int) []*drive.Harness {
 		hs[i] = drive.NewHarness()
 	}
 	return hs
+}
+
+// loneLeafPrograms: one-node programs (a variable, a constant), which only
+// infix notation can write.
+func loneLeafPrograms() []*Prog {
+	var out []*Prog
+	for _, ty := range []term.Ty{B, I} {
+		for _, wrap := range []string{"%s", "(%s)", "((%s))"} {
+			p := MkProg(term.Var("x", ty))
+			p.Src, p.Infix = sprintf(wrap, p.T.Name), true
+			out = append(out, p)
+		}
+	}
+	for _, c := range []*term.Term{term.Const(true), term.Const(7)} {
+		p := MkProg(c)
+		p.Src, p.Infix = "("+c.Lit+")", true
+		out = append(out, p)
+	}
+	return out
 }
